@@ -97,6 +97,7 @@ type vWorld struct {
 	procTok      map[int]string // unique processor id -> pipeline token "<sig>.<name>" (filled by the generator)
 	extDeps      map[int][]int  // extension id -> dependencies
 	exts         []string       // created extension labels x<id>
+	extInst      []*vExt        // every created extension instance
 	sharedID     int            // receiver id built on sharedcomponent (0 = none)
 	sharedExpID  int            // exporter id built on sharedcomponent (0 = none); inner label u<id>
 	sharedConnID int            // connector id built on sharedcomponent (0 = none); inner label w<id>
@@ -164,8 +165,22 @@ func (n *vNode) ConsumeMetrics(context.Context, pmetric.Metrics) error    { retu
 func (n *vNode) ConsumeLogs(context.Context, plog.Logs) error             { return nil }
 func (n *vNode) ConsumeProfiles(context.Context, pprofile.Profiles) error { return nil }
 
-// vExt: extension with declared dependencies.
-type vExt struct{ vNode }
+// vExt: extension with declared dependencies; counts the calls on this very instance (an id listed twice in
+// service::extensions is created twice by extensions.New).
+type vExt struct {
+	vNode
+	nStart, nStop int
+}
+
+func (e *vExt) Start(ctx context.Context, h component.Host) error {
+	e.nStart++
+	return e.vNode.Start(ctx, h)
+}
+
+func (e *vExt) Shutdown(ctx context.Context) error {
+	e.nStop++
+	return e.vNode.Shutdown(ctx)
+}
 
 var _ extensioncapabilities.Dependent = (*vExt)(nil)
 
@@ -288,7 +303,8 @@ func (w *vWorld) mkConn(id component.ID, es, rs int) vAll {
 
 func (w *vWorld) mkExt(id component.ID) *vExt {
 	num := vIDNum(id)
-	e := &vExt{vNode{w: w, kind: 'x', label: fmt.Sprintf("x%d", num)}}
+	e := &vExt{vNode: vNode{w: w, kind: 'x', label: fmt.Sprintf("x%d", num)}}
+	w.extInst = append(w.extInst, e)
 	for _, d := range w.extDeps[num] {
 		e.deps = append(e.deps, vID(d))
 	}
@@ -716,6 +732,15 @@ func vGenExts(rnd *rand.Rand) []vExtCfg {
 		rnd.Shuffle(len(d), func(a, b int) { d[a], d[b] = d[b], d[a] })
 	}
 	rnd.Shuffle(len(exts), func(a, b int) { exts[a], exts[b] = exts[b], exts[a] })
+	// service::extensions may list an id more than once (nothing in validation rejects it): ~25% of the non-empty lists get one
+	// or two duplicated entries, adjacent or not; the duplicated extension may have dependencies and/or be one.
+	if len(exts) > 0 && rnd.IntN(4) == 0 {
+		for n := 1 + rnd.IntN(2); n > 0; n-- {
+			dup := exts[rnd.IntN(len(exts))]
+			pos := rnd.IntN(len(exts) + 1)
+			exts = append(exts[:pos], append([]vExtCfg{dup}, exts[pos:]...)...)
+		}
+	}
 	return exts
 }
 
